@@ -41,6 +41,7 @@
 
 
 
+#include <xalanc/XPath/MutableNodeRefList.hpp>
 #include <xalanc/XPath/XalanQNameByReference.hpp>
 #include <xalanc/XPath/XPathFactory.hpp>
 #include <xalanc/XPath/XPathProcessor.hpp>
@@ -262,9 +263,21 @@ StylesheetRoot::process(
     const XPathExecutionContext::CurrentNodePushAndPop  theCurrentNodePushAndPop(executionContext, sourceTree);
 
     // Output the action of the found root rule.  All processing
-    // occurs from here.
-    
-    rootRule->execute(executionContext);
+    // occurs from here.  It begins with a node list containing
+    // just the root node, so position() and last() are 1.
+    {
+        MutableNodeRefList  theRootList(executionContext.getMemoryManager());
+
+        theRootList.addNode(sourceTree);
+
+        theRootList.setDocumentOrder();
+
+        const XPathExecutionContext::ContextNodeListPushAndPop  theContextNodeListPushAndPop(
+                    executionContext,
+                    theRootList);
+
+        rootRule->execute(executionContext);
+    }
 
     // At this point, anything transient during the tranformation
     // may have been deleted, so we may not refer to anything the
